@@ -39,6 +39,8 @@ FINDINGS = {
     "alsub": ("TypeOK Sum Bounds Reparent SubnetCode Zero", "AllOrNothing PrioBound", "SubnetStmt"),
     # DESIGN 9.6: a refused transferAllowedToStandard leaves the connection charged nowhere
     "xfer": ("TypeOK Bounds SubnetCode", "", "Reparent"),
+    # the same with three connections (refusal by system too); thorough tier only
+    "xfer3": ("TypeOK Bounds SubnetCode", "", "Reparent"),
 }
 # (call, error class) pairs that must occur in a family's printed graph (vacuity guard)
 MUST = {
@@ -60,13 +62,14 @@ MUST = {
     "gcmem": [("gc", None), ("reserve", "nil"), ("reserve", "limit"), ("beginspan", "nil"), ("release", "nil")],
     "alsub": [("openconn", "nil"), ("openconn", "limit")],
     "xfer": [("setpeer", "limit"), ("setpeer", "nil")],
+    "xfer3": [("setpeer", "limit"), ("setpeer", "nil")],
 }
 
 
 def tiers(ctx):
     if ctx.tier == "thorough":
         return {
-            "printed": ["memp", "span", "connq", "subnet", "allow", "connmem", "stream", "streammem", "gcmem"],
+            "printed": ["memp", "span", "connq", "subnet", "allow", "connmem", "stream", "streamq", "streammem", "gcmem"],
             "exhaustive": [("mem", 3), ("conn", 3)],
             "concurrent": [("cconn", 2), ("cstream", 2), ("cmem", 4)],
             "traces": 150, "races": 300, "random": 3000,
@@ -129,6 +132,8 @@ def run(ctx):
     for fam in T["printed"]:
         jobs.append((ctx, "print", fam, ALL_INV, "AllOrNothing PrioBound", 1, beh))
     for fam, (inv, props, bad) in FINDINGS.items():
+        if fam == "xfer3" and ctx.tier != "thorough":
+            continue
         jobs.append((ctx, "print", fam, inv, props, 1, beh))
         jobs.append((ctx, "expect", fam, bad, "", 1, beh))
     for fam, wk in T["concurrent"]:
